@@ -92,6 +92,23 @@ pub fn step_to_end(w: &mut World, max_ticks: u32) -> Result<End, String> {
     }
     Ok(End::Stuck)
 }
+/// The same in slices of `k` instructions (`run_with_limit(k)` until the halt is reported).
+pub fn slice_to_end(w: &mut World, k: u64, max_ticks: u32) -> Result<End, String> {
+    for _ in 0..400_000u32 {
+        match guarded(|| w.sim.run_with_limit(k))? {
+            Err(e) => return Ok(End::Err(err_kind(&e))),
+            Ok(()) => {
+                if program_halted(w) {
+                    return Ok(End::Halted);
+                }
+                if ticks_of(w) >= max_ticks {
+                    return Ok(End::Stuck);
+                }
+            }
+        }
+    }
+    Ok(End::Stuck)
+}
 fn ticks_of(w: &World) -> u32 {
     w.log.0.lock().unwrap_or_else(|e| e.into_inner()).recs.iter().filter(|r| matches!(r, Rec::Tick { .. })).count() as u32
 }
@@ -845,7 +862,17 @@ impl C12 {
             Err(p) => return fail("panic-in-run", p),
         };
         let stepped = scn.profile == "C12-step";
-        let er = match if stepped { step_to_end(&mut r, scn.max_ticks) } else { run_to_end(&mut r) } {
+        let slice: Option<u64> = scn.profile.strip_prefix("C12-slice-").and_then(|k| k.parse().ok());
+        if slice.is_some() {
+            out.bump("probe.real-twin-sliced");
+        }
+        let er = match if stepped {
+            step_to_end(&mut r, scn.max_ticks)
+        } else if let Some(k) = slice {
+            slice_to_end(&mut r, k, scn.max_ticks)
+        } else {
+            run_to_end(&mut r)
+        } {
             Ok(e) => e,
             Err(p) => return fail("panic-in-run", p),
         };
@@ -985,8 +1012,11 @@ impl Check for C12 {
         s.ops.clear();
         s.max_ticks = 8000;
         // a quarter of the runs drive the real-trap machine with step_in instead of run()
-        if r.chance(1, 4) {
-            s.profile = "C12-step".into();
+        match r.below(8) {
+            0 | 1 => s.profile = "C12-step".into(),
+            // ... or in slices of k instructions
+            2 | 3 => s.profile = format!("C12-slice-{}", *r.pick(&[1u64, 1, 2, 3, 5, 13, 50])),
+            _ => {}
         }
         // no lock holds here: after the virtual run has stopped the real run makes more device calls, so
         // a hold indexed by call number would hit only the real run (and drop a byte: that is C33's
